@@ -24,3 +24,90 @@ Theorem C01_tables_masks :
     (negb (Z.eqb (Z.land (Z.shiftl 1 k) t_tgt_mask) 0) = (Z.eqb k 1 || Z.eqb k 2)) /\
     t_backwards = t_tgt_mask /\ t_all_ops = 15%Z.
 Proof. exact tables_masks. Qed.
+
+(* ------------------------------------------------------------------------------------------
+   The algebra: for EVERY expression tree (any depth) over well-formed primitives, every field
+   with conjugation satisfying [laws] (Laws.v), every family of library leaves that are
+   extensional and homogeneous, and every mode index k that the advertised-mode rule [advk]
+   grants: the operator that NIFTy's construction-time simplifications build (model [build])
+   advertises mode k and acts exactly as the compositional matrix meaning [sem] of the
+   expression.  Modes: k = 0 TIMES, 1 ADJOINT, 2 INVERSE, 3 ADJOINT_INVERSE; mode = 2^k. *)
+From Coq Require Import QArith Qcanon.
+Require Import NV.C01.Laws NV.C01.ProofsAlg NV.C01.Instance.
+
+Theorem C01_build_sound :
+  forall (A : arith), laws A ->
+  forall leaf_apply : nat -> Z -> vec A -> vec A,
+    (forall (l : nat) (m : Z) (x y : vec A), (forall i, x i = y i) -> forall i, leaf_apply l m x i = leaf_apply l m y i) ->
+    (forall (l : nat) (m : Z) (x : vec A) (c : T A) (i : nat),
+        leaf_apply l m (fun j => mul A (x j) c) i = mul A (leaf_apply l m x i) c) ->
+  forall e : expr A, wfe A e ->
+  forall k : Z, In k [0;1;2;3]%Z -> advk A e k = true ->
+    Z.testbit (cap A (build A e)) k = true /\
+    forall (x : vec A) (i : nat),
+      apply A leaf_apply (build A e) (Z.shiftl 1 k) x i = sem A leaf_apply e k x i.
+Proof. exact build_sound_full. Qed.
+
+(* _flip_modes / .adjoint / .inverse of ANY well-formed operator object: the result acts as the
+   original in the mode with the transform bits XOR-ed in, and advertises exactly the remapped
+   capability bits (flip group: t = 0 is the identity, t o t' = t xor t'). *)
+Theorem C01_flip_sound :
+  forall (A : arith), laws A ->
+  forall leaf_apply : nat -> Z -> vec A -> vec A,
+    (forall (l : nat) (m : Z) (x y : vec A), (forall i, x i = y i) -> forall i, leaf_apply l m x i = leaf_apply l m y i) ->
+    (forall (l : nat) (m : Z) (x : vec A) (c : T A) (i : nat),
+        leaf_apply l m (fun j => mul A (x j) c) i = mul A (leaf_apply l m x i) c) ->
+  forall (o : op A) (t : Z), wf A o -> In t [0;1;2;3]%Z ->
+    wf A (flip A t o) /\
+    forall k : Z, In k [0;1;2;3]%Z ->
+      Z.testbit (cap A (flip A t o)) k = Z.testbit (cap A o) (Z.lxor k t) /\
+      forall (x : vec A) (i : nat),
+        apply A leaf_apply (flip A t o) (Z.shiftl 1 k) x i = apply A leaf_apply o (Z.shiftl 1 (Z.lxor k t)) x i.
+Proof. exact flip_sound_full. Qed.
+
+(* SumOperator.make on ANY list of well-formed operators with signs: the simplified result
+   (unpacking, scaling absorption with the sign fix, diagonal merging, single-operand collapse)
+   acts as the signed sum of its operands in the two modes a sum supports. *)
+Theorem C01_sum_simplify_sound :
+  forall (A : arith), laws A ->
+  forall leaf_apply : nat -> Z -> vec A -> vec A,
+    (forall (l : nat) (m : Z) (x y : vec A), (forall i, x i = y i) -> forall i, leaf_apply l m x i = leaf_apply l m y i) ->
+    (forall (l : nat) (m : Z) (x : vec A) (c : T A) (i : nat),
+        leaf_apply l m (fun j => mul A (x j) c) i = mul A (leaf_apply l m x i) c) ->
+  forall l : list (op A * bool), Forall (fun p => wf A (fst p)) l ->
+    wf A (mk_sum A l) /\
+    forall k : Z, (k = 0 \/ k = 1)%Z -> forall (x : vec A) (i : nat),
+      apply A leaf_apply (mk_sum A l) (Z.shiftl 1 k) x i = sum_sem A leaf_apply l (Z.shiftl 1 k) x i.
+Proof. exact mk_sum_sound_full. Qed.
+
+(* ChainOperator.make on ANY list of well-formed operators: the simplified result (identity
+   shortcuts, unpacking, collection of real scalings, absorption into the first diagonal, merging
+   of adjacent diagonals) acts as the composition in all four modes and advertises exactly the
+   conjunction of the operands' capabilities. *)
+Theorem C01_chain_simplify_sound :
+  forall (A : arith), laws A ->
+  forall leaf_apply : nat -> Z -> vec A -> vec A,
+    (forall (l : nat) (m : Z) (x y : vec A), (forall i, x i = y i) -> forall i, leaf_apply l m x i = leaf_apply l m y i) ->
+    (forall (l : nat) (m : Z) (x : vec A) (c : T A) (i : nat),
+        leaf_apply l m (fun j => mul A (x j) c) i = mul A (leaf_apply l m x i) c) ->
+  forall l : list (op A), Forall (wf A) l ->
+    wf A (mk_chain A l) /\
+    forall k : Z, In k [0;1;2;3]%Z ->
+      Z.testbit (cap A (mk_chain A l)) k = forallb (fun a => Z.testbit (cap A a) k) l /\
+      forall (x : vec A) (i : nat),
+        apply A leaf_apply (mk_chain A l) (Z.shiftl 1 k) x i = comp A leaf_apply l k x i.
+Proof. exact mk_chain_sound_full. Qed.
+
+(* Non-vacuity: the hypotheses are satisfiable (rationals, identity leaves) and a concrete
+   expression  D - 2*(L^dagger @ D')  with a negative-sign absorption meets wfe and advk. *)
+Example C01_hyps_satisfiable :
+  laws QcA /\
+  (forall l m (x y : vec QcA), (forall i, x i = y i) -> forall i, id_leaf l m x i = id_leaf l m y i) /\
+  let D  : op QcA := @Diag QcA (fun i => Q2Qc (Qmake (Z.of_nat i + 1) 1)) 0 None in
+  let D' : op QcA := @Diag QcA (fun i => Q2Qc (Qmake 3 1)) 2 (Some 1%nat) in
+  let e := @ESub QcA (@EPrim QcA D) (@EScale QcA (Q2Qc (Qmake 2 1)) (@EComp QcA (@EAdj QcA (@EPrim QcA (@Leaf QcA 0%nat 3))) (@EPrim QcA D'))) in
+  wfe QcA e /\ advk QcA e 0 = true /\ advk QcA e 1 = true /\ advk QcA e 2 = false.
+Proof.
+  split; [exact QcA_laws|]. split; [exact id_leaf_ext|].
+  cbn. repeat split; try (left; reflexivity); try (right; right; left; reflexivity); try discriminate; try reflexivity.
+Qed.
